@@ -6,10 +6,14 @@
     response and its first location; invariance given estimator equivariance; the Cauchy-Schwarz core of boxcar recovery.
     [fft_laws] holds for the exact DFT (C13_response_formula_with_exact_dft).  NOT proved: that pocketfft computes the DFT, float32 error, np.mean / sqrt of normalize_template (external, [norm_ops]), equivariance of
     the location / scale estimators (C15), and the link from the response sums to overlap counts in boxcar recovery.
-    Only property theorems here; each is closed by [exact] of a lemma of Proofs/C13_mf.v. *)
-From Coq Require Import ZArith List Bool QArith Ring_theory.
+    Second part of the file (lemmas of Proofs/C13_bank.v): the current source form without hypothesis and the response formula /
+    arg-max statement for every data length; the boxcar width ladder; the on-pulse extent; the support of the peaked templates.
+    Props/C13_zscore.v (required below): the standardisation relation over the regenerated estimate_zscore call.
+    Only property theorems here; each is closed by [exact] of a lemma of Proofs/C13_mf.v or Proofs/C13_bank.v. *)
+From Coq Require Import ZArith List Bool QArith Ring_theory Sorted.
 Require Import SPP.Base.Rt SPP.Model.C12_np SPP.Model.C12_conv SPP.Model.C13_np SPP.Gen.Kernels SPP.Gen.MatchedFilter
-        SPP.Model.C13_mf SPP.Proofs.C12_conv SPP.Proofs.C13_mf SPP.Proofs.C12_dft SPP.Proofs.C12_dft_fft.
+        SPP.Model.C13_mf SPP.Proofs.C12_conv SPP.Proofs.C13_mf SPP.Proofs.C13_bank SPP.Proofs.C12_dft SPP.Proofs.C12_dft_fft.
+Require SPP.Props.C13_zscore.   (* built with this file: the standardisation theorem over Gen/MatchedFilterZ.v + Gen/Stats.v *)
 Import ListNotations.
 Open Scope Z_scope.
 
@@ -191,3 +195,84 @@ Proof. vm_compute. split; [reflexivity|discriminate]. Qed.
 
 Example C13_example_zscore : (zscore_q (2 * 3 + 1) (2 * 1 + 1) (2 * 2) == zscore_q 3 1 2)%Q.
 Proof. vm_compute. reflexivity. Qed.
+
+(** ------------------------------------------------------------------------------------------------------------------
+    Over the CURRENT source (no hypothesis on its form): the regenerated kernel transforms at the data length and hands that
+    length to the inverse transform.  This theorem stops compiling as soon as the source leaves that form. *)
+Theorem C13_current_source_form : forall F Nm, src_is F Nm nopad (ilen_given F).
+Proof. exact current_form. Qed.
+Print Assumptions C13_current_source_form.
+
+(** full strength, every data length (odd ones included), no form hypothesis:
+    convs[i][t] = sum_k z[(t + k - ref_i) mod n] * tnorm_i[k] *)
+Theorem C13_response_formula : forall F Nm, fft_laws F -> forall data bank refs,
+  1 <= len data -> (forall k, In k bank -> len k <= len data) ->
+  convolve_templates_run F Nm data bank refs = responses_p Nm data (len data) bank refs.
+Proof. exact response_formula_current. Qed.
+Print Assumptions C13_response_formula.
+
+(** S/N, best template and peak bin are the maximum of the inner products with the standardised data and its first location *)
+Theorem C13_snr_is_max_inner_product : forall F Nm, fft_laws F -> forall z bank refs,
+  1 <= len z -> 1 <= len bank -> (forall k, In k bank -> len k <= len z) ->
+  let R := fun i t => response_p Nm z (nth (Z.to_nat i) bank []) (nth (Z.to_nat i) refs 0) t in
+  let '(i, t, s) := mf_compute_run F Nm z bank refs in
+  0 <= i < len bank /\ 0 <= t < len z /\ s = R i t /\
+  (forall i' t', 0 <= i' < len bank -> 0 <= t' < len z -> R i' t' <= s) /\
+  (forall i' t', 0 <= i' < len bank -> 0 <= t' < len z -> i' * len z + t' < i * len z + t -> R i' t' < s).
+Proof. exact snr_is_max_inner_product. Qed.
+Print Assumptions C13_snr_is_max_inner_product.
+
+(** non-vacuity: ODD data length 5 (the case the form hypothesis used to guard), time-domain transform *)
+Example C13_example_odd_length :
+  let F := td_fft good5 in
+  convolve_templates_run F ex_nm [0; 1; 5; 1; 0] [[5; 5]; [0; 10; 0]] [0; 1]
+    = responses_p ex_nm [0; 1; 5; 1; 0] 5 [[5; 5]; [0; 10; 0]] [0; 1] /\
+  mf_compute_run F ex_nm [0; 1; 5; 1; 0] [[5; 5]; [0; 10; 0]] [0; 1] = (1, 2, 36).
+Proof. vm_compute. split; reflexivity. Qed.
+
+(** the boxcar width ladder of MatchedFilter.get_box_width_spacing(size_max, sp / sq), for every size_max and spacing factor:
+    starts at 1, strictly increasing, within [1, max(1, size_max)], maximal (the loop ends by its own tests: after the last width w
+    either w >= size_max or max(w + 1, floor(sp w / sq)) > size_max), and independent of the fuel of the model *)
+Theorem C13_box_width_ladder : forall size_max sp sq,
+  let l := box_width_spacing_run size_max sp sq in
+  hd 0 l = 1 /\ StronglySorted Z.lt l /\ Forall (fun w => 1 <= w <= Z.max 1 size_max) l /\
+  (let w := List.last l 1 in (w <? size_max) = false \/ (Z.max (w + 1) (sp * w / sq) >? size_max) = true) /\
+  (forall fuel, size_max - 1 <= Z.of_nat fuel -> l = 1 :: box_widths_loop fuel size_max sp sq 1).
+Proof. exact box_widths_spec. Qed.
+Print Assumptions C13_box_width_ladder.
+
+Example C13_example_ladder :
+  box_width_spacing_run 32 3 2 = [1; 2; 3; 4; 6; 9; 13; 19; 28] /\ box_width_spacing_run 7 1 1 = [1; 2; 3; 4; 5; 6; 7] /\
+  box_width_spacing_run 64 2 1 = [1; 2; 4; 8; 16; 32; 64] /\ box_width_spacing_run 0 3 2 = [1].
+Proof. vm_compute. repeat split; reflexivity. Qed.
+
+(** on_pulse = extent of the best template placed at the peak bin, clipped to the data: always inside [0, nbins] ... *)
+Theorem C13_on_pulse_inside : forall b width rwidth peak_bin nbins, 0 <= nbins ->
+  let '(s, e) := on_pulse_run b width rwidth peak_bin nbins in 0 <= s /\ e <= nbins.
+Proof. exact on_pulse_inside. Qed.
+Print Assumptions C13_on_pulse_inside.
+
+(** ... and for a peak bin inside the data and a (rounded) width of at least one bin it contains the peak bin and is exactly
+    [peak, min(nbins, peak + width)) (start-referenced) resp. [max(0, peak - r), min(nbins, peak + r)), r = round(width) *)
+Theorem C13_on_pulse_contains_peak : forall (b : bool) width rwidth peak_bin nbins, 0 <= peak_bin < nbins ->
+  (if b then 1 <= width else 1 <= rwidth) ->
+  let '(s, e) := on_pulse_run b width rwidth peak_bin nbins in
+  0 <= s <= peak_bin /\ peak_bin < e <= nbins /\
+  (if b then s = peak_bin /\ e = Z.min nbins (peak_bin + width)
+   else s = Z.max 0 (peak_bin - rwidth) /\ e = Z.min nbins (peak_bin + rwidth)).
+Proof. exact on_pulse_contains_peak. Qed.
+Print Assumptions C13_on_pulse_contains_peak.
+
+Example C13_example_on_pulse :
+  on_pulse_run true 9 9 60 64 = (60, 64) /\ on_pulse_run false 3 3 1 64 = (0, 4) /\ on_pulse_run true 4 4 10 64 = (10, 14).
+Proof. vm_compute. repeat split; reflexivity. Qed.
+
+(** support of the peak-referenced templates: 2 size + 1 samples on the abscissae -size .. size, symmetric about the reference bin
+    (size = ceil(3.5 sigma) resp. ceil(3.5 gamma) is a real-valued computation outside the integer model: tested by the oracle) *)
+Theorem C13_peak_template_support_partial : forall size, 0 <= size ->
+  gaussian_len size = 2 * size + 1 /\ gaussian_ref_bin size = size /\
+  (forall i, gaussian_abscissa size (2 * gaussian_ref_bin size - i) = - gaussian_abscissa size i) /\
+  lorentzian_len size = 2 * size + 1 /\ lorentzian_ref_bin size = size /\
+  (forall i, lorentzian_abscissa size (2 * lorentzian_ref_bin size - i) = - lorentzian_abscissa size i).
+Proof. exact peak_support. Qed.
+Print Assumptions C13_peak_template_support_partial.
